@@ -147,7 +147,8 @@ def build_harness(release=False):
         with open(os.path.join(HARNESS, "Cargo.toml.in")) as f:
             tmpl = f.read()
         feats = '"verif-hooks"' if hooks_available() else ""
-        text = tmpl.replace("@REPO@", os.path.abspath(REPO)).replace("@FEATURES@", feats)
+        text = (tmpl.replace("@REPO@", os.path.abspath(REPO)).replace("@FEATURES@", feats)
+                .replace("@HFEATURES@", '"hooks"' if feats else ""))
         cargo_toml = os.path.join(HARNESS, "Cargo.toml")
         old = open(cargo_toml).read() if os.path.exists(cargo_toml) else None
         if old != text:
